@@ -16,6 +16,9 @@ VERIF = os.path.dirname(HERE)
 TARGET = os.path.join(HERE, "target")
 MOD = os.path.join(HERE, "mod")
 SIM = os.path.join(HERE, "c17_sim.py")
+CONF = os.path.join(HERE, "c17_conf.py")
+TWIN_DIR = os.path.join(HERE, "twin")
+TWIN = os.path.join(TWIN_DIR, "target", "release", "c17-twin")
 
 
 def harness_error(msg):
@@ -33,6 +36,61 @@ def build():
         harness_error("building the python extension module from /repo failed")
     os.makedirs(MOD, exist_ok=True)
     shutil.copy(lib, os.path.join(MOD, "num_dual.so"))
+    # the reference model: the same operation programs on the Rust types, built from the same tree
+    if not os.path.exists(os.path.join(TWIN_DIR, "Cargo.lock")):
+        shutil.copy("/repo/Cargo.lock", os.path.join(TWIN_DIR, "Cargo.lock"))
+    r = subprocess.run(["cargo", "build", "--release", "--offline"], cwd=TWIN_DIR, env=env, capture_output=True, text=True)
+    if r.returncode != 0 or not os.path.exists(TWIN):
+        print(r.stderr[-3000:], file=sys.stderr)
+        harness_error("building the Rust reference model (twin) against /repo failed")
+
+
+def run_py(script, args, hashseed, out):
+    env = dict(os.environ, PYTHONPATH=MOD, PYTHONHASHSEED=hashseed, PYTHONDONTWRITEBYTECODE="1")
+    if os.path.exists(out):
+        os.remove(out)
+    r = subprocess.run([sys.executable, script] + args + ["--out", out], env=env, capture_output=True, text=True)
+    if r.returncode != 0 or not os.path.exists(out):
+        print(r.stdout[-2000:], r.stderr[-3000:], file=sys.stderr)
+        harness_error(f"{os.path.basename(script)} failed (exit {r.returncode})")
+    return json.load(open(out))
+
+
+def run_twin(jobs_path, ref_path):
+    r = subprocess.run([TWIN, jobs_path], capture_output=True, text=True)
+    if r.returncode != 0:
+        print(r.stderr[-3000:], file=sys.stderr)
+        harness_error("the Rust reference model failed on the generated jobs")
+    open(ref_path, "w").write(r.stdout)
+
+
+def conformance(tier, seed, tmp):
+    """fault-free tier: generated client programs, Python module vs Rust twin, step by step"""
+    jobs, ref = os.path.join(tmp, "jobs.json"), os.path.join(tmp, "ref.json")
+    run_py(CONF, ["emit", "--seed", str(seed), "--tier", tier], "0", jobs)
+    run_twin(jobs, ref)
+    c1 = run_py(CONF, ["run", "--jobs", jobs, "--ref", ref], "0", os.path.join(tmp, "conf1.json"))
+    c2 = run_py(CONF, ["run", "--jobs", jobs, "--ref", ref], "random", os.path.join(tmp, "conf2.json"))
+    if c1["digest"] != c2["digest"]:
+        harness_error(f"two interpreters disagree on the conformance log: {c1['digest']} vs {c2['digest']}")
+    return c1
+
+
+def minimise_conformance(mm, tmp):
+    """scalar jobs: dependency slice up to the first mismatching register, re-checked against the twin"""
+    job = mm["job"]
+    if job["kind"] != "scalar" or mm["mismatch"]["at"] < len(job["inputs"]):
+        return job, 0
+    sys.path.insert(0, HERE)
+    import c17_conf
+    cand = c17_conf.slice_job(job, mm["mismatch"]["at"])
+    jp, rp = os.path.join(tmp, "min_jobs.json"), os.path.join(tmp, "min_ref.json")
+    json.dump([cand], open(jp, "w"))
+    run_twin(jp, rp)
+    r = run_py(CONF, ["run", "--jobs", jp, "--ref", rp], "0", os.path.join(tmp, "min_conf.json"))
+    if r["mismatch"]:
+        return cand, len(job["ops"]) - len(cand["ops"])
+    return job, 0
 
 
 def run_sim(args, hashseed, out):
@@ -66,6 +124,18 @@ def main():
     build()
     tmp = os.path.join(HERE, "target", "sim_out")
     os.makedirs(tmp, exist_ok=True)
+    if a.replay and json.load(open(a.replay)).get("tier_of_violation") == "conformance":
+        rf = json.load(open(a.replay))
+        jp, rp = os.path.join(tmp, "replay_jobs.json"), os.path.join(tmp, "replay_ref.json")
+        json.dump([rf["job"]], open(jp, "w"))
+        run_twin(jp, rp)
+        r = run_py(CONF, ["run", "--jobs", jp, "--ref", rp], "0", os.path.join(tmp, "replay_conf.json"))
+        print(json.dumps({"job": rf["job"], "mismatch": r["mismatch"] and r["mismatch"]["mismatch"]}, indent=1)[:4000])
+        if r["mismatch"]:
+            print(f"VIOLATION property=C17 replay={a.replay}")
+            sys.exit(1)
+        print("no violation on this tree")
+        sys.exit(0)
     if a.replay:
         r = run_sim(["--replay", a.replay], "0", os.path.join(tmp, "replay.json"))
         print(json.dumps({k: r[k] for k in ("case", "plan", "fault_free", "outcome", "invocations", "violation")}, indent=1))
@@ -75,6 +145,7 @@ def main():
         print("no violation on this tree")
         sys.exit(0)
 
+    conf = conformance(a.tier, a.seed, tmp)
     args = ["--tier", a.tier, "--seed", str(a.seed)]
     r1 = run_sim(args, "0", os.path.join(tmp, "run1.json"))
     r2 = run_sim(args, "random", os.path.join(tmp, "run2.json"))
@@ -83,8 +154,27 @@ def main():
         harness_error(f"two interpreters disagree on the event log of seed {a.seed}: {r1['digest']} vs {r2['digest']}")
     st = r1["stats"]
     exit_code, violations, known_hit = 0, 0, []
+    if conf["mismatch"]:
+        mm = conf["mismatch"]
+        job, dropped = minimise_conformance(mm, tmp)
+        what = mm["mismatch"]["what"]
+        opname = what.split("(")[-1].rstrip(")") if "(" in what else what
+        key = f"conformance:{job.get('class') or job.get('driver')}:{opname}"
+        kf = known_findings()
+        if key in kf:
+            print(f"KNOWN-FINDING: property=C17 {key}: {kf[key]}")
+            known_hit.append(key)
+        else:
+            os.makedirs(os.path.join(VERIF, "replays"), exist_ok=True)
+            path = os.path.join(VERIF, "replays", f"C17-seed{a.seed}-conf{mm['job_index']}.json")
+            json.dump({"property": "C17", "tier_of_violation": "conformance", "seed": a.seed, "job_index": mm["job_index"], "job": job,
+                       "operations_dropped_by_minimisation": dropped, "mismatch": mm["mismatch"], "finding_key": key}, open(path, "w"), indent=1)
+            print(f"conformance mismatch in job {mm['job_index']} ({job.get('class') or job.get('driver')}) at {what}; {dropped} operations dropped by slicing")
+            print("  " + json.dumps(mm["mismatch"])[:600])
+            print(f"VIOLATION property=C17 replay={path}")
+            exit_code, violations = 1, 1
     v = r1["violation"]
-    if v:
+    if v and not exit_code:
         key = v["finding_key"]
         kf = known_findings()
         if key in kf:
@@ -103,6 +193,12 @@ def main():
     ev = {
         "property_id": "C17", "tier": a.tier, "seed": a.seed, "level": "fault_enumeration",
         "coverage": {
+            "conformance_tier": {
+                "what": "fault-free configuration: generated straight-line programs executed step by step on the Python classes and on the Rust reference model (twin) built from the same tree; every part of every register (getters, IEEE bit patterns), every repr() vs Rust Display, every driver result compared",
+                "jobs": conf["stats"]["jobs"], "operations": conf["stats"]["operations"], "registers_compared": conf["stats"]["registers_compared"],
+                "programs_per_class": conf["stats"]["by_class"], "programs_per_driver": conf["stats"]["by_driver"],
+                "distinct_operations_used": len(conf["stats"]["ops_used"]), "operations_used": conf["stats"]["ops_used"], "digest": conf["digest"], "sample": conf["sample"],
+            },
             "evaluations": st["runs"],
             "distinct_nontrivial": st["distinct_histories_with_fault_fired"],
             "rule": "one evaluation = one call of a Python driver function of the real extension module with a Probe callable; for every scenario "
@@ -120,19 +216,24 @@ def main():
             "determinism_check": {"interpreters": 2, "PYTHONHASHSEED": ["0", "random"], "digest": r1["digest"], "digest_equal": deterministic},
             "real_components": ["the extension module built from /repo (pyo3 glue, length-dispatch chains of the 10 driver functions, Rust try_* drivers, dual arithmetic)", "CPython"],
             "stubbed_components": ["the user callable (Probe): numbers its invocations and injects the planned fault"],
-            "invariants": ["F1 an exception raised by the first invocation comes out of the driver as that very object",
+            "invariants": ["R  (conformance tier) every register, repr and driver result equals the Rust reference model bit for bit",
+                           "F1 an exception raised by the first invocation comes out of the driver as that very object",
                            "F2 a fault planned for invocation k>=2 never fires and the outcome equals the fault-free run bit for bit",
                            "F4 the fault-free run is deterministic"],
             "known_findings_hit": known_hit,
             "exhaustive": True,
         },
-        "assumptions": ["only the callback seam is simulated; operator/method transparency of C17 (a pure-input question) is outside this check",
+        "assumptions": ["evaluations / distinct_nontrivial count the fault tier only; the conformance tier is reported separately under coverage.conformance_tier and contains no fault or schedule",
+                        "the name mapping Python -> Rust in sim_py/twin/src/main.rs is the statement of 'the corresponding Rust operation'; reflected operators are c + x, -x + c, x * c, x.recip() * c",
+                        "the twin evaluates vector-valued drivers on the dynamically sized Rust types for every length (the module uses fixed-size types up to 10); results agree bit for bit on the pinned tree",
+                        "numpy-array operands of the operators are not exercised (numpy is not installed for the system python3)",
                         "the reference for a failing callable is the Rust try_* contract: closure invoked once, its error returned unchanged",
                         "the fault table is enumerated completely per scenario; scenarios enumerate drivers x lengths x functions, evaluation points are seeded"],
         "wall_s": round(wall, 2), "violations": violations,
     }
     os.makedirs(os.path.join(VERIF, "evidence"), exist_ok=True)
     json.dump(ev, open(os.path.join(VERIF, "evidence", "C17.json"), "w"), indent=1)
+    print(f"C17 conformance tier: jobs={conf['stats']['jobs']} operations={conf['stats']['operations']} registers_compared={conf['stats']['registers_compared']} mismatch={'yes' if conf['mismatch'] else 'no'}")
     print(f"C17 callback-seam simulation: seed={a.seed} tier={a.tier} scenarios={st['scenarios']} runs={st['runs']} fired_runs={st['fired_runs']} "
           f"distinct_faulted_histories={st['distinct_histories_with_fault_fired']} deterministic={deterministic} wall={wall:.1f}s")
     print(f"fault kinds fired: {st['faults_fired']}")
